@@ -162,7 +162,10 @@ Definition judge_c12 (g : cfg) (gh : g12) (o : obs) : list N * g12 :=
                 if (k_type p =? T_PUBACK) || (k_type p =? T_PUBCOMP) then [k_pid p]
                 else if (k_type p =? T_PUBREC) && k_rc_present p && (128 <=? k_rc p) then [k_pid p] else []) (notifies evs) in
   let erased := match ob_op o with OErase id => if memb id (released evs) || negb (nlist_eqb (map k_pid (c_store pre)) (map k_pid (c_store post))) then [id] else [] | _ => [] end in
-  let open2 := fold_left (fun l id => remove_all id l) (done ++ erased) open1 in
+  (* notify_closed on a session that is not kept: every exchange ends there (identifiers the library still held
+     are released; one the application holds for a PUBREL it has not sent yet is the application's to release) *)
+  let ended := match ob_op o with OClosed => if c_need_store pre then [] else open1 | _ => [] end in
+  let open2 := fold_left (fun l id => remove_all id l) (done ++ erased ++ ended) open1 in
   (* exchanges that open: an accepted QoS>0 PUBLISH; packets retransmitted on resume *)
   let opened :=
     match ob_op o with
